@@ -664,10 +664,11 @@ class GMMMachine(BaseEstimator):
             weights = np.reshape(hdf5["m_weights"], (n_gaussians,))
             self = cls(n_gaussians=n_gaussians, ubm=ubm, weights=weights)
             self.means = np.array(g_means).reshape(n_gaussians, -1)
-            self.variances = np.array(g_variances).reshape(n_gaussians, -1)
+            # The floors first: the variances setter clamps to the current floors
             self.variance_thresholds = np.array(g_variance_thresholds).reshape(
                 n_gaussians, -1
             )
+            self.variances = np.array(g_variances).reshape(n_gaussians, -1)
         return self
 
     def load(self, hdf5):
